@@ -22,7 +22,7 @@ def gen(rng, tier):
     out = []
     # warm-up: every solver and representation first sees a ONE-state problem (see props/C02.py)
     for alg in ("ip", "wit", "ls", "pbvi", "perseus", "qmdp"):
-        for repr_ in ("dense", "sparse", "generic", "mixed1", "mixed2"):
+        for repr_ in ("dense", "sparse", "generic", "mixed1", "mixed2", "byvalue"):
             m = gen_pomdp(rng, 1, 2, 2, gammas=(F(1, 2),))
             minr = min(min(row) for row in m["R"])
             bs = gen_beliefs(rng, 1, 1)
@@ -64,6 +64,6 @@ def gen(rng, tier):
             m["g"] = F(3, 4)
         minr = min(min(row) for row in m["R"])
         bs = gen_beliefs(rng, S, 4)
-        out.append("plan %s %s %d %d %s %d %s %d %s" % (alg, rng.choice(["dense", "dense", "sparse", "generic", "mixed1", "mixed2"]), h, rng.choice([3, 6, 10]),
+        out.append("plan %s %s %d %d %s %d %s %d %s" % (alg, rng.choice(["dense", "dense", "sparse", "generic", "mixed1", "mixed2", "byvalue"]), h, rng.choice([3, 6, 10]),
                    Qs([minr + rng.choice([0, 0, -1, -5, 1, 3, 8])]), rng.randrange(1 << 30), fmt_pomdp(m), len(bs), " ".join(Qs(b) for b in bs)))
     return out
